@@ -18,13 +18,13 @@ CHECKS = {
     text="Index.tla's DbReindex (plain and with explicit paths) is the reference; TLC checks RebuildEquivalence / NoGhostPages on all bounded histories over the full edit alphabet. Simulated histories (edits, page add/delete/rename, break/fix, day changes, explicit-path runs) are replayed on real directories; after every plain reindex the rows must equal the TLC successor AND the dump of a `db create` run on a copy of the final files.",
     design_ref="DESIGN.md section 6 C06",
     note="Trusts as C05. Explicit paths name existing files; behaviours end at a refused create.",
-    technique="TLA+ spec (Index.tla) + TLC + S->I replay with per-step state comparison and a real rebuild as second oracle"),
+    technique="TLA+ spec (Index.tla, Bus.tla) + TLC + S->I replay with per-step state comparison and a real rebuild as second oracle; I->S: random histories (Trace_Index) and scripted `zorg edit` sessions (Trace_Bus)"),
  "C11": dict(
     category="model_checking",
     text="ShouldStamp in Index.tla decides stamping against the previous index state; the action property StampIff restates it against a ghost record of what the user last had indexed (GhostAgrees ties the two); TLC checks both on bounded multi-day histories including stamps removed by hand. Simulated multi-day histories are replayed on real directories: after every reindex stamps in files and rows must be the TLC successor's, every other line unchanged, and a second reindex a no-op.",
     design_ref="DESIGN.md section 6 C11",
     note="Trusts as C05; days are consecutive calendar days from 2024-05-10.",
-    technique="TLA+ spec (Index.tla StampIff) + TLC + S->I replay with per-step state comparison"),
+    technique="TLA+ spec (Index.tla StampIff, Bus.tla) + TLC + S->I replay with per-step state comparison; I->S: random histories (Trace_Index) and scripted `zorg edit` sessions (Trace_Bus)"),
  "C07": dict(
     category="model_checking",
     text="Zid.tla is model-checked exhaustively (complete 135,252-suffix chain for the real alphabet; all interleavings over 3 dates with restarts and lost allocations for N=2; the real alphabet around every carry point) and bound to the code both ways: the chain and every edge of the race graph are replayed into the real ZIDManager with the durable file compared after each call, every replayed ZID is run through both lexers, is_zid and the page compiler, and random long histories of the real manager are validated as behaviours of the spec by TLC (Trace_Zid). Quick replays all carry neighbourhoods plus random ranks; thorough replays the whole chain.",
